@@ -185,6 +185,40 @@ def _layout(repo, col, R="R-C01-layout"):
             return RangeV(rat_of(a[0]), rat_of(a[1]))
 
         ev.opaque_calls["_consecutive_indices"] = consec
+
+        def block_slice(ev_, e, env, ctx):
+            """`block[:, lo:hi]` of a block of consecutive indices (one row per branch) is the block [start+lo, end+hi) (hi < 0) --
+            `branch(b)[:, 1:]` is lower(b), `branch(b)[:, :-1]` is upper(b)"""
+            sl = e.slice
+            if not (isinstance(sl, ast.Tuple) and len(sl.elts) == 2 and all(isinstance(x, ast.Slice) for x in sl.elts)):
+                return None
+            rows, cols = sl.elts
+            if rows.lower is not None or rows.upper is not None or rows.step is not None or cols.step is not None:
+                return None
+            if not isinstance(e.value, (ast.Call, ast.Name, ast.Attribute)):
+                return None
+            try:
+                base = ev_.ev(e.value, env, ctx)
+            except Und:
+                return None
+            if not isinstance(base, RangeV):
+                return None
+
+            def const(x):
+                if x is None:
+                    return None
+                v = rat_of(ev_.ev(x, env, ctx))
+                if not v.is_const():
+                    raise Und("block column bound is not a constant")
+                return int(v.const_value())
+            lo, hi = const(cols.lower), const(cols.upper)
+            if (lo is not None and lo < 0) or (hi is not None and hi >= 0):
+                raise Und("block column slice counted from the other end")
+            start = base.start + Rat.const(lo) if lo else base.start
+            end = base.end + Rat.const(hi) if hi else base.end
+            return RangeV(start, end)
+
+        ev.sub_hooks.append(block_slice)
         b = PW.of(Rat.atom("b"))
         C, W, n = Rat.atom("C[b]"), Rat.atom("W[b]"), Rat.atom("n[b]")
         wants = {
